@@ -362,6 +362,11 @@ def run_case(idx, rng, tier, lane):
         if lane == "poly":
             variants = [v for v in variants if v[0] in ("hs0#0", "hs1#1", "hs2#2", "hs3#3", "t2d0", "t3d0")]
             variants += [("hs%d" % k, {"PYTHONHASHSEED": str(k)}, []) for k in (4, 5)]
+        if tier == "thorough" and lane == "plain" and idx < len(KINDS) and kind in ("phase", "phase_quartet", "genotype", "polyphase", "haplotag", "haplotagphase", "find_snv", "compare") \
+                and not any(v[0] == "vg" for v in variants):
+            # once per native-heavy subcommand: the same run under valgrind memcheck (a repository frame that uses uninitialised
+            # memory means the result is a function of heap garbage)
+            variants = list(variants) + [("vg", {"PYTHONHASHSEED": "0", "WV_VGLOG": os.path.join(tmp, "vg.log")}, [])]
         probe_out = os.path.join(tmp, "probe.jsonl")
         results = {}
         first_outdir = None
